@@ -169,6 +169,18 @@ func here() (string, int) {
 	return f, l
 }
 
+// panickingArray writes two elements, opens a nested object and then panics.
+type panickingArray struct{}
+
+func (panickingArray) EncodeArray(enc log.Encoder) {
+	enc.AppendInt64(1)
+	enc.AppendString("two")
+	enc.AppendObjectBegin()
+	enc.AppendKey("k")
+	enc.AppendInt64(3)
+	panic("encoder gave up")
+}
+
 type ctxKey int
 
 func c0708Worker(w *W) {
@@ -207,6 +219,15 @@ func c0708Worker(w *W) {
 			}
 			gc := genCase{Seed: w.Spec.Seed, Shard: w.Spec.Shard, Index: i, W: W}
 			w.Journal("direct case %+v", gc)
+			if i%150 == 75 {
+				// a user-supplied encoder that panics half-way through a nested value; the caller recovers. Whatever
+				// formatting state the library keeps between events must not leak into the events that follow.
+				bad := &log.Event{Level: log.InfoLevel, Time: ev.Time, File: "p.go", Line: 1, Tag: "abc",
+					Fields: []log.Field{log.Int("before", 1), log.Array("arr", panickingArray{}), log.Int("after", 2)}}
+				catch(func() { (&log.TextLayout{BaseLayout: log.BaseLayout{FileLineLength: 48}}).ToBytes(bad) })
+				catch(func() { (&log.JSONLayout{BaseLayout: log.BaseLayout{FileLineLength: 48}}).ToBytes(bad) })
+				w.Count("recovered_encoder_panics", 2)
+			}
 			sp := &evSpec{levelName: ev.Level.Name(), time: ev.Time.Format("2006-01-02T15:04:05.000"), fileLine: expectedFileLine(ev.File, ev.Line, W), tag: ev.Tag, ctx: ev.CtxString,
 				members: append(append([]xmember{}, ev.ctxM...), ev.fM...)}
 			var jline []byte
